@@ -490,6 +490,9 @@ def setup():
         witness.run_witness(decls[0])
         from vf import kani_side
         kani_side.warm()
+        o = Outcome('setup', 'quick', 0)
+        std_axioms_sanity(o)
+        formats_sanity(o)
     except Exception as e:
         print('setup warm-up problem (checks will rebuild on demand):', repr(e)[:500])
     print('setup done')
